@@ -609,6 +609,17 @@ func configure(g *gen) {
 		Extra:    []string{"{σ : Type}", "(env : GoRt.PEnv σ (Ctx γ))", "(s0 : σ)"},
 		Prologue: []string{"let mut s := s0"}, RetExtra: []string{"s", "(none : Option Panic)"}, RetExtraT: []string{"σ", "Option Panic"},
 		MutParams: []string{"c"}, Exts: entryExts})
+	// middleware.go: a HandlerFunc used as an http.Handler — a fresh context (`zero` = &Context{}), Init, the handler
+	// itself (a parameter: what it makes of the context, or its panic), then the end-of-request commit
+	add(FnSpec{Recv: "HandlerFunc", Func: "ServeHTTP", Lean: "HandlerFunc.ServeHTTP", NoRecv: true,
+		Extra: []string{"(zero : Ctx γ)", "(run : Ctx γ → Except Panic (Ctx γ))"},
+		Types: map[string]T{"*http.Request": {"opaque", "Option Nat"}, "http.ResponseWriter": {"opaque", "Unit"}},
+		RetExtra: []string{"c"}, RetExtraT: []string{"Ctx γ"},
+		Exts: []Ext{
+			{Callee: "Context{}", Value: "zero", T: T{"struct", "Ctx γ"}},
+			{Callee: "$", Stmts: []string{"c ← run %1"}, MayPanic: true},
+			{Callee: "c.writer.ensureWriteHeader", Stmts: []string{"c := { c with writer := Gen.RW.ensureWriteHeader c.writer }"}},
+		}})
 	// pkg/handlers: the two gates.  The context / request is an event log resp. a small record; what
 	// `Request.BasicAuth()` parsed out of the Authorization header is an input.
 	gctx := T{"opaque", "List GoRt.GEv"}
